@@ -127,8 +127,11 @@ func c05(p *P) {
 	r.Rule("C05.R7", "relevance table of validateByProgress = spec; never Invalid; runs before the cache in every entry point", 5)
 	r.Rule("C05.R8", "validation cache structures: map accesses under their mutex; key binds namespace and value", 6)
 	r.Rule("C05.R9", "committee cache: only successful non-nil lookups remembered, under the requested instance; eviction only below the bound", 6)
+	r.Rule("C05.R11", "progress observer: every notification is published (relevance is judged against the participant's current progress)", 2)
+	r.Rule("C05.R12", "BLS backend: a public key is cached/accepted only after decoding to a non-null point", 4)
 	p.include(c08, map[string]string{"C08.R1": "C05.R10", "C08.R4": "C05.R10b"}, map[string]string{"C05.R10": "strong-quorum threshold exact (justification quorum)", "C05.R10b": "sender's scaled power computed exactly"})
 
+	p.gEquality("C05.R4")
 	vm := p.fn("C05.R1", "gpbft.cachingValidator.validateMessageWithVoteValueKey")
 	// the cache lookup: the validator's wrapper or the grouped set's Contains called directly
 	noHit := union(callResult("", "gpbft.cachingValidator.isAlreadyValidated", "", 0, avFalse), callResult("", "internal/caching.GroupedSet.Contains", "", 0, avFalse))
@@ -706,6 +709,45 @@ func c05(p *P) {
 			p.guarded("C05.R9", ev, dels,
 				cmpRel("evicted instance not at the bound", `^next\(range\(\$0\.committees\)\)#1$`, `^\$1$`, RelEQ),
 				cmpRel("evicted instance not above the bound", `^next\(range\(\$0\.committees\)\)#1$`, `^\$1$`, RelGT))
+		}
+	}
+	// ---------------- R11: the progress the validator judges relevance against is the participant's latest notification
+	if np := p.fn("C05.R11", "gpbft.atomicProgression.NotifyProgress"); np != nil {
+		var sts []Sink
+		for _, cs := range callSites(np, false) {
+			n := cs.Callee()
+			if strings.HasPrefix(n, "sync/atomic.Pointer") && (strings.HasSuffix(n, ".Store") || strings.HasSuffix(n, ".Swap") || strings.HasSuffix(n, ".CompareAndSwap")) {
+				sts = append(sts, Sink{cs.Instr, "progress published"})
+			}
+		}
+		var rets []Sink
+		for _, ret := range returnsOf(np) {
+			rets = append(rets, Sink{ret, "return"})
+		}
+		p.before("C05.R11", np, "progress published", sts, "return", rets)
+		for _, cs := range callSites(np, false) {
+			if strings.HasSuffix(cs.Callee(), ".Store") && strings.HasPrefix(cs.Callee(), "sync/atomic.Pointer") {
+				r.Check(strings.Contains(cs.Arg(1), "$1"), "C05.R11", "NotifyProgress: publishes the notified progress", p.c.InstrPos(cs.Instr), cs.Arg(1), "publishes "+cs.Arg(1))
+			}
+		}
+	}
+	// ---------------- R12: (BLS backend) a public key is remembered only after it decoded to a non-null point
+	if pk := p.fn("C05.R12", "blssig.Verifier.pubkeyToPoint"); pk != nil {
+		var ups []Sink
+		for _, mu := range mapUpdates(pk, ".pointCache") {
+			ups = append(ups, Sink{mu, "point remembered"})
+		}
+		if len(ups) == 0 {
+			r.Undecided("C05.R12", "blssig.Verifier.pubkeyToPoint: cache write", "no write to the point cache found")
+		} else {
+			hit := canonIs("", `\.pointCache\[string\(\$1\)\]#1$`, avFalse)
+			gs := []VM{
+				errFails("key decodes", "iface:Point.UnmarshalBinary", "").with(hit),
+				callResult("not the null point", "iface:Point.Equal", `Null\(`, -1, avTrue).with(hit),
+			}
+			gs[0].Name, gs[1].Name = "key decodes", "not the null point"
+			p.guarded("C05.R12", pk, ups, gs...)
+			p.guardedAfter("C05.R12", pk, okReturns(pk), gs...)
 		}
 	}
 	if fn := p.fn("C05.R8", "internal/caching.Set.newKey"); fn != nil {
